@@ -141,9 +141,6 @@ theorem partition_perm {α : Type} (key : α → Nat) : ∀ (k : Nat) (l : List 
 
 /-! ### numbers on the brackets -/
 
-/-- the numbers (in increasing order) written on bracket `j`: number `n + 1` is on bracket `asg[n]` -/
-def numsOf (asg : List Nat) (j : Nat) : List Nat :=
-  ((enum 0 asg).filter fun q => decide (q.2 = j)).map (·.1 + 1)
 
 /-- `(number, segment)` pairs of the section's volta destinations, in the order the code collects them -/
 def voltaPairs (c k : Nat) (asg : List Nat) : List (Nat × Nat) :=
